@@ -1,5 +1,201 @@
-"""NUM rule family: interval / known-bits abstract interpretation (C44, C12)."""
+"""NUM rule family: interval / known-bits abstract interpretation (C44 line table, C12 LZSS)."""
+import ast, re
+
+from ..core import Rule, AnalysisError, node_src
+from ..engine import absint, pyabs
+from ..engine.absint import AV, State, const, binop
+from ..reference import LOCATION_TABLE
+
+
+def _bit(av, i):
+    return av.bits[i]
 
 
 def linetable_rules(ctx):
-    return []
+    rel = 'Cython/Compiler/LineTable.py'
+    tree = ctx.parse(rel)
+    fns = {n.name: n for n in tree.body if isinstance(n, ast.FunctionDef)}
+    from ..props.C44 import find_encoder
+    _, enc, base_idx = find_encoder(ctx)
+    r = Rule('C44-NUM', 'abstract interpretation of the line-table encoder: header byte has bit 7 set and a code in the range of its form; all other bytes < 128; '
+             'short/one-line/long layouts carry the fields CPython decodes; var-int chunks have the continuation bit on all but the last', floor=8)
+    # unpacked names of the position tuple
+    names = None
+    for n in enc.body:
+        if isinstance(n, ast.Assign) and isinstance(n.targets[0], ast.Tuple) and len(n.targets[0].elts) == 4:
+            names = [e.id for e in n.targets[0].elts]
+    if names is None:
+        raise AnalysisError('position tuple unpacking not found')
+    sl, el, sc, ec = names
+    base = enc.args.args[base_idx].arg
+    body = [s for s in enc.body if not (isinstance(s, ast.Assign) and isinstance(s.targets[0], ast.Tuple))]
+    # the line delta is partitioned so that the one-line code field can be decided exactly: {0}, {1}, {2}, {3}, [4, inf)
+    delta_expr = None
+    for n in ast.walk(enc):
+        if isinstance(n, (ast.Assign, ast.AnnAssign)) and isinstance(n.value, ast.BinOp) and isinstance(n.value.op, ast.Sub) and \
+                isinstance(n.value.left, ast.Name) and n.value.left.id == sl and isinstance(n.value.right, ast.Name) and n.value.right.id == base:
+            delta_expr = n.value
+    if delta_expr is None:
+        raise AnalysisError('line delta computation not found')
+    parts = [(0, 0), (1, 1), (2, 2), (3, 3), (4, None)]
+    npaths = 0
+    seen_forms = set()
+    for dlo, dhi in parts:
+        for same_line in (True, False):
+            pa = pyabs.PyAbs(fns)
+            st = State()
+            atoms = {}
+            for nm, lo in ((sl, 1), (el, 1), (sc, 0), (ec, 0), (base, 1)):
+                a = st.atom(nm, lo, None)
+                atoms[nm] = a
+                st.env[nm] = st.atom_av(a)
+            # input contract: start >= base (delta >= 0), end >= start
+            dkey = 'expr:' + ast.unparse(delta_expr)
+            da = st.atom('(' + ast.unparse(delta_expr) + ')', dlo, dhi)
+            st.env[dkey] = da
+            ekey = 'expr:%s - %s' % (el, sl)
+            ea = st.atom('(%s - %s)' % (el, sl), 0, 0 if same_line else None)
+            if not same_line:
+                st.rng[ea] = (1, None)
+            st.env[ekey] = ea
+            st.env['expr:%s - %s' % (sl, el)] = st.atom('(%s - %s)' % (sl, el), 0 if same_line else None, 0 if same_line else -1)
+            try:
+                res = pa.block(body, [st], 0, 0)
+            except AnalysisError as e:
+                raise AnalysisError('abstract interpretation of %s failed: %s' % (enc.name, e))
+            for s2, kind, val in res:
+                if kind != 'return':
+                    r.violate('LineTable.%s:falls-off' % enc.name, rel, enc.lineno, 'a path falls off the end of %s' % enc.name)
+                    continue
+                npaths += 1
+                _check_entry(r, rel, enc, s2, atoms, da, ea, (sl, el, sc, ec), (dlo, dhi), same_line, seen_forms)
+    for form in ('short', 'oneline', 'long'):
+        r.inst('form:' + form, sample='form %s reachable: %s' % (form, form in seen_forms))
+        if form not in seen_forms:
+            r.info('form %s is never produced' % form)
+    r.info('%d abstract paths analysed' % npaths)
+    # var-int chunking: the loop that emits chunks must shift by exactly the number of payload bits it emits
+    for fn in fns.values():
+        for loop in [n for n in ast.walk(fn) if isinstance(n, ast.While)]:
+            shifts = [n for n in ast.walk(loop) if isinstance(n, ast.AugAssign) and isinstance(n.op, ast.RShift) and isinstance(n.value, ast.Constant)]
+            masks = [n for n in ast.walk(loop) if isinstance(n, ast.BinOp) and isinstance(n.op, ast.BitAnd) and isinstance(n.right, ast.Constant)]
+            if not shifts or not masks:
+                continue
+            k = shifts[0].value.value
+            m = masks[0].right.value
+            thr = [c.value for n in ast.walk(loop.test) for c in [n] if isinstance(c, ast.Constant) and isinstance(c.value, int)]
+            ors = [n.left.value if isinstance(n.left, ast.Constant) else n.right.value for n in ast.walk(loop)
+                   if isinstance(n, ast.BinOp) and isinstance(n.op, ast.BitOr) and (isinstance(n.left, ast.Constant) or isinstance(n.right, ast.Constant))]
+            r.inst('LineTable.%s:varint-chunking' % fn.name, sample='%s: mask %s shift %s threshold %s continuation %s' % (fn.name, m, k, thr, ors))
+            want = LOCATION_TABLE['varint_chunk_bits']
+            if not (k == want and m == (1 << want) - 1 and thr == [1 << want] and ors == [1 << want]):
+                r.violate('LineTable.%s:varint-chunking' % fn.name, rel, loop.lineno,
+                          'var-int chunking is inconsistent with the %d-bit chunk format: payload mask %s, shift %s, loop threshold %s, continuation bit %s' % (want, m, k, thr, ors))
+    return [r]
+
+
+def _check_entry(r, rel, enc, st, atoms, datom, eatom, names, drange, same_line, seen_forms):
+    sl, el, sc, ec = names
+    out = st.out
+    where = out[0].where if out else enc.lineno
+    tag = 'delta=%s%s,%s' % (drange[0], '' if drange[1] == drange[0] else '+', 'one-line' if same_line else 'multi-line')
+    if not out:
+        r.violate('LineTable.%s:no-output' % enc.name, rel, enc.lineno, 'a path of %s (%s) writes no table entry' % (enc.name, tag))
+        return
+    H = st.norm(out[0].av)
+    code = binop(st, '&', binop(st, '>>', H, const(3)), const(15))
+    if H.bits[7] == 1 and H.lo is not None and H.hi is not None and 128 <= H.lo and H.hi <= 255:
+        # header = 128 + (code << 3) + length field: the code range follows from the interval
+        code = AV((H.lo - 128) >> 3, (H.hi - 128) >> 3, code.bits, None)
+    form = None
+    for f in ('short', 'oneline', 'long'):
+        lo, hi = LOCATION_TABLE[f]['codes']
+        if code.lo is not None and code.hi is not None and lo <= code.lo and code.hi <= hi:
+            form = f
+    key = 'LineTable.%s:%s' % (enc.name, form or 'bad-code')
+    r.inst('%s:%s:%d' % (key, tag, len(out)), sample='%s -> header %s..%s code %s..%s form %s, %d bytes' % (tag, H.lo, H.hi, code.lo, code.hi, form, len(out)))
+    if H.bits[7] != 1:
+        r.violate(key + ':header-bit7', rel, where, 'the first byte of an entry (%s) is not known to have bit 7 set: %r' % (tag, H))
+    if form is None:
+        r.violate('LineTable.%s:code-range' % enc.name, rel, where,
+                  'the code field of the entry header ranges over %s..%s on path (%s), which is not within one documented form (0-9 short, 10-12 one-line, 14 long)' % (code.lo, code.hi, tag))
+        return
+    seen_forms.add(form)
+    if H.bits[0] != 0 or H.bits[1] != 0 or H.bits[2] != 0:
+        r.violate(key + ':length-field', rel, where, 'the instruction-length field (low 3 bits) of the header is not 0 (one code unit per entry)')
+    for i, e in enumerate(out[1:], 1):
+        av = st.norm(e.av)
+        if av.bits[7] != 0 or (av.hi is None or av.hi > 127):
+            r.violate(key + ':byte%d-msb' % (i if not e.in_loop else 0), rel, e.where,
+                      'a continuation byte of the entry may be >= 128 (range %s..%s) on path (%s): CPython would read it as the start of a new entry' % (av.lo, av.hi, tag))
+    sca, eca = atoms[sc], atoms[ec]
+    if form == 'short':
+        if not same_line or drange != (0, 0):
+            r.violate(key + ':applicability', rel, where, 'short form used although %s' % tag)
+        if len(out) != 2:
+            r.violate(key + ':length', rel, where, 'short form must be 2 bytes, got %d' % len(out))
+            return
+        b1 = st.norm(out[1].av)
+        want_h = [('b', sca, i) for i in (3, 4, 5, 6)]
+        if [H.bits[i] for i in (3, 4, 5, 6)] != want_h:
+            r.violate(key + ':code=col>>3', rel, where, 'short form: the code field is not start_column >> 3 (bits %r)' % ([H.bits[i] for i in (3, 4, 5, 6)],))
+        if [b1.bits[i] for i in (4, 5, 6)] != [('b', sca, i) for i in (0, 1, 2)]:
+            r.violate(key + ':byte2-hi', rel, out[1].where, 'short form: bits 4-6 of the second byte are not start_column & 7')
+        low = [b1.bits[i] for i in range(4)]
+        ok = all(isinstance(x, tuple) and x[2] == i and re.sub(r'\s', '', x[1].split('@')[0]) == '(%s-%s)' % (ec, sc) for i, x in enumerate(low))
+        if not ok:
+            r.violate(key + ':byte2-lo', rel, out[1].where, 'short form: the low 4 bits of the second byte are not (end_column - start_column): %r' % (low,))
+        # range: start_column < 80 so that code <= 9 is implied by code range check; column diff < 16
+        dlo, dhi = st.rng.get(low[0][1], (None, None)) if isinstance(low[0], tuple) else (None, None)
+        if ok and (dhi is None or dhi > 15 or dlo is None or dlo < 0):
+            r.violate(key + ':diff-range', rel, out[1].where, 'short form: end_column - start_column ranges over %s..%s, does not fit 4 bits' % (dlo, dhi))
+    elif form == 'oneline':
+        if not same_line:
+            r.violate(key + ':applicability', rel, where, 'one-line form used for a multi-line position')
+        if len(out) != 3:
+            r.violate(key + ':length', rel, where, 'one-line form must be 3 bytes, got %d' % len(out))
+            return
+        if drange[0] == drange[1] and not (code.lo == code.hi == 10 + drange[0]):
+            r.violate(key + ':code=10+delta', rel, where, 'one-line form: code %s..%s does not equal 10 + line delta (%d)' % (code.lo, code.hi, drange[0]))
+        if drange[0] != drange[1]:
+            r.violate(key + ':delta-range', rel, where, 'one-line form used for a line delta >= %d (codes 10-12 encode deltas 0-2 only)' % drange[0])
+        for i, (a, nm) in enumerate(((sca, 'start_column'), (eca, 'end_column')), 1):
+            av = st.norm(out[i].av)
+            if st.root(av.lin or st.as_lin(av)) != (a, 0):
+                r.violate(key + ':byte%d' % (i + 1), rel, out[i].where, 'one-line form: byte %d is not %s' % (i + 1, nm))
+    elif form == 'long':
+        if not (H.lo == H.hi == 128 | (14 << 3)):
+            r.violate(key + ':header', rel, where, 'long form header is not 0xF0')
+        groups, cur = [], []
+        for e in out[1:]:
+            cur.append(e)
+            if not e.in_loop:
+                groups.append(cur)
+                cur = []
+        if cur:
+            r.violate(key + ':unterminated-varint', rel, cur[-1].where, 'a var-int has no terminating chunk')
+        if len(groups) != 4:
+            r.violate(key + ':fields', rel, where, 'long form must write 4 var-ints (line delta, end-line delta, column+1, end column+1), found %d' % len(groups))
+        for g in groups:
+            for e in g:
+                av = st.norm(e.av)
+                if e.in_loop and av.bits[6] != 1:
+                    r.violate(key + ':varint-continuation', rel, e.where, 'a non-final var-int chunk does not have the continuation bit (64) set')
+                if not e.in_loop and (av.bits[6] != 0 or av.hi is None or av.hi > 63):
+                    r.violate(key + ':varint-final', rel, e.where,
+                              'the final var-int chunk ranges over %s..%s: a value >= 64 has the continuation bit set and CPython keeps reading into the next field' % (av.lo, av.hi))
+        # argument roles, from the call log of this path
+        calls = [n for n in st.notes if n[0] == 'call' and len(n[2]) >= 2]
+        vi = [n for n in calls if n[4] >= 1][:4]
+        if len(vi) == 4:
+            srcs = [re.sub(r'\s', '', n[2][1]) for n in vi]
+            dvar = None
+            for n2 in ast.walk(enc):
+                if isinstance(n2, (ast.Assign, ast.AnnAssign)) and isinstance(n2.value, ast.BinOp) and isinstance(n2.value.op, ast.Sub) and \
+                        isinstance(n2.value.left, ast.Name) and n2.value.left.id == sl:
+                    t = n2.targets[0] if isinstance(n2, ast.Assign) else n2.target
+                    dvar = t.id
+            want = ['%s<<1' % dvar, '%s-%s' % (el, sl), '%s+1' % sc, '%s+1' % ec]
+            for i, (g, w) in enumerate(zip(srcs, want)):
+                if g != w:
+                    r.violate(key + ':field%d' % (i + 1), rel, vi[i][3], 'long form: var-int %d encodes %s, the format requires %s' % (i + 1, g, w))
